@@ -144,7 +144,7 @@ def spm_call_model(I, selfv, lp, iv):
 PURE_CALLS = {"urllib.parse.quote", "posixpath.join", "str"}
 
 
-def independent_iteration_findings(fn):
+def independent_iteration_findings(fn, extra_calls=()):
     """Side conditions of the independent-iteration rule for every loop of `fn` (the real AST):
          for T in L: BODY   ==   L[i] := effect(BODY)(L[i]) for every i, in order, nothing else changed
     when (1) T is a plain name and L a plain local name that BODY never mentions, (2) BODY is a straight line of assignments and
@@ -185,7 +185,7 @@ def independent_iteration_findings(fn):
                         bad.append(f"line {st.lineno}: store into something other than `{T}`")
                 if isinstance(n, ast.Call):
                     q = dotted(n.func)
-                    if q in PURE_CALLS:
+                    if q in PURE_CALLS or q in extra_calls:
                         continue
                     if isinstance(n.func, ast.Attribute) and isinstance(n.func.value, ast.Name) and n.func.value.id == T:
                         continue
@@ -195,6 +195,40 @@ def independent_iteration_findings(fn):
                     if n.id == T:
                         bad.append(f"line {st.lineno}: the loop variable is rebound")
                     assigned.add(n.id)
+        out[ords[id(node)]] = bad
+    return out
+
+
+def comprehension_map_findings(fn):
+    """Side conditions under which a list comprehension of the real function is the element-wise map of its iterable, in order and of the same
+    length: exactly one `for` clause, no `if`, a plain-name target, and an element expression that mentions only the target, literals and
+    module-level names (no local of the function, so nothing the comprehension or a later statement could have changed between elements, and no
+    walrus / nested comprehension / lambda).  Returns {comprehension ordinal: [what fails]}."""
+    import ast
+    from ..loops import static_ordinals, assigned_names
+    ords = static_ordinals(fn)[1]
+    locals_ = set(assigned_names(fn.body)) | {a.arg for a in fn.args.args + fn.args.kwonlyargs}
+    out = {}
+    for node in ast.walk(fn):
+        if isinstance(node, (ast.GeneratorExp, ast.DictComp, ast.SetComp)):
+            out[ords[id(node)]] = [f"{type(node).__name__} (only list comprehensions are covered)"]
+        if not isinstance(node, ast.ListComp):
+            continue
+        bad = []
+        if len(node.generators) != 1:
+            bad.append("more than one for clause")
+        g = node.generators[0]
+        if g.ifs:
+            bad.append("filtered comprehension")
+        if g.is_async or not isinstance(g.target, ast.Name):
+            bad.append("target is not a plain name")
+        else:
+            T = g.target.id
+            for n in ast.walk(node.elt):
+                if isinstance(n, (ast.NamedExpr, ast.Lambda, ast.ListComp, ast.GeneratorExp, ast.DictComp, ast.SetComp, ast.Yield, ast.Await)):
+                    bad.append(type(n).__name__ + " in the element expression")
+                if isinstance(n, ast.Name) and n.id != T and n.id in locals_:
+                    bad.append(f"the element expression mentions the local `{n.id}`")
         out[ords[id(node)]] = bad
     return out
 
